@@ -23,7 +23,9 @@
 EXTENDS Integers, Sequences, FiniteSets, TLC, Json
 
 CONSTANTS Rich,          \* FALSE: quick class product, TRUE: full product
-          StrictIdText   \* PeerID.UnmarshalText surfaces decode errors and checks 32 bytes (F17 repaired)
+          StrictIdText,  \* PeerID.UnmarshalText surfaces decode errors and checks 32 bytes (F17 repaired)
+          LengthFastPath \* FALSE: lengths as encoding/asn1 computes them.  TRUE: a hand-rolled encoder whose outer
+                         \* SEQUENCE length assumes a 2-byte BIT STRING header (seeded defect; Keys_fastpath.cfg must fail)
 
 Err == [k |-> "ERR"]
 IsErr(x) == x.k = "ERR"
@@ -50,6 +52,11 @@ OIDs == [ed25519 |-> <<Arc(1), Arc(3), Arc(101), Arc(112)>>,
          arcmax31 |-> <<Arc(1), Arc(2), Arc(MaxInt32)>>,
          first2max |-> <<Arc(2), Arc(MaxInt32 - 80)>>,            \* 80 + arc = 2^31 - 1: still parses
          long20 |-> [i \in 1..20 |-> Arc(IF i = 1 THEN 1 ELSE i)],
+         \* long enough to push the OID / AlgorithmIdentifier over the 127- and 255-byte length-form boundaries
+         long60 |-> [i \in 1..60 |-> Arc(IF i = 1 THEN 1 ELSE IF i = 2 THEN 3 ELSE 16384 + i)],      \* 3 bytes per arc: 175 content bytes
+         long130 |-> [i \in 1..130 |-> Arc(IF i = 1 THEN 2 ELSE 200 + i)],                           \* 2 bytes per arc: 260 content bytes
+         len126 |-> [i \in 1..64 |-> Arc(IF i = 1 THEN 1 ELSE IF i = 2 THEN 3 ELSE 200 + i)],        \* OID content 125: AlgorithmIdentifier content 127
+         len127 |-> [i \in 1..65 |-> Arc(IF i = 1 THEN 1 ELSE IF i = 2 THEN 3 ELSE IF i = 65 THEN 5 ELSE 200 + i)],   \* OID content 126: AlgorithmIdentifier content 128
          \* valid object identifiers that Go's encoder writes and Go's parser refuses
          arc2p31 |-> <<Arc(1), Arc(2), Big("2^31")>>,
          arc2p40 |-> <<Arc(1), Arc(2), Big("2^40")>>,
@@ -61,7 +68,7 @@ OIDs == [ed25519 |-> <<Arc(1), Arc(3), Arc(101), Arc(112)>>,
          second40 |-> <<Arc(0), Arc(40)>>,
          negative |-> <<Arc(1), Arc(2), Neg>>]
 OIDNames == DOMAIN OIDs
-QuickOIDs == {"ed25519", "first0", "first1max", "first2_999", "arc128", "arcmax31", "first2max", "long20",
+QuickOIDs == {"ed25519", "first0", "first1max", "first2_999", "arc128", "arcmax31", "first2max", "long20", "long60", "long130", "len126", "len127",
               "arc2p31", "first2wrap", "single", "empty", "first3", "second40", "negative"}
 
 \* X.660: at least two arcs, first in 0..2, second below 40 unless the first is 2, none negative
@@ -73,16 +80,40 @@ Encodable(o) == Len(o) >= 2 /\ ~o[1].big /\ o[1].n <= 2 /\ (o[1].n < 2 => (~o[2]
 FitsParser(o) == /\ \A i \in 1..Len(o) : ~o[i].big
                  /\ (Len(o) >= 2 /\ o[1].n = 2) => o[2].n <= MaxInt32 - 80
 
-BodyLens == {0, 1, 31, 32, 33, 64}
+\* key-body lengths around every DER length-form boundary of the BIT STRING and of the outer SEQUENCE
+\* (short form <= 127, 0x81 <= 255, 0x82 <= 65535, 0x83), plus real sizes (Ed25519 32, ML-DSA-44 1312)
+BodyLens == {0, 1, 31, 32, 33, 64, 125, 126, 127, 128, 129, 254, 255, 256, 257, 1312, 65534, 65535, 65536}
+QuickLens == {0, 1, 32, 33, 126, 127, 128, 255, 256}
+FullLenOIDs == {"ed25519", "long60", "long130"}
 Fills == {"zero", "ones", "mixed"}
 Key(o, l, f) == [oid |-> o, body |-> l, fill |-> IF l = 0 THEN "zero" ELSE f]
-AllKeys == {Key(o, l, f) : o \in (IF Rich THEN OIDNames ELSE QuickOIDs), l \in BodyLens, f \in (IF Rich THEN Fills ELSE {"mixed"})}
-           \cup {Key("ed25519", l, f) : l \in BodyLens, f \in Fills}
+AllKeys == IF Rich THEN {Key(o, l, f) : o \in OIDNames, l \in BodyLens, f \in Fills}
+           ELSE {Key(o, l, "mixed") : o \in QuickOIDs, l \in QuickLens}
+                  \cup {Key(o, l, "mixed") : o \in FullLenOIDs, l \in BodyLens}
+                  \cup {Key("ed25519", l, f) : l \in {0, 1, 32, 127, 128}, f \in Fills}
+
+\* ---- DER lengths, as encoding/asn1 computes them (definite, minimal)
+B128Len(n) == IF n < 128 THEN 1 ELSE IF n < 16384 THEN 2 ELSE IF n < 2097152 THEN 3 ELSE IF n < 268435456 THEN 4 ELSE 5
+ArcLen(a) == IF a.big THEN (IF a.name = "2^31" THEN 5 ELSE 6) ELSE IF a.n < 0 THEN 0 ELSE B128Len(a.n)
+RECURSIVE SumArcs(_, _)
+SumArcs(o, i) == IF i > Len(o) THEN 0 ELSE ArcLen(o[i]) + SumArcs(o, i + 1)
+OIDContentLen(o) == (IF o[1].n = 2 /\ ~o[2].big /\ o[2].n > MaxInt32 - 80 THEN 5 ELSE IF o[2].big THEN ArcLen(o[2]) ELSE B128Len(40 * o[1].n + o[2].n))
+                      + SumArcs(o, 3)
+LenOctets(n) == IF n < 128 THEN 1 ELSE IF n < 256 THEN 2 ELSE IF n < 65536 THEN 3 ELSE 4
+TLVLen(c) == 1 + LenOctets(c) + c
+AlgLen(o) == TLVLen(TLVLen(OIDContentLen(o)))                     \* SEQUENCE { OBJECT IDENTIFIER }
+BitsContent(l) == 1 + l                                            \* unused-bits octet + key
+OuterContent(o, l) == AlgLen(o) + TLVLen(BitsContent(l))
+DeclaredOuter(o, l) == IF LengthFastPath THEN AlgLen(o) + 2 + BitsContent(l) ELSE OuterContent(o, l)
 
 \* DER at structure level.  MarshalPublicKey returns `out` unchanged when asn1.Marshal fails: f/x509/x509.go:41
 EmptyDER == [k |-> "EMPTY"]
-DER(form, o, l, f) == [k |-> "DER", form |-> form, oid |-> o, body |-> l, fill |-> f]
-Marshal(key) == IF Encodable(OIDs[key.oid]) THEN DER("canonical", key.oid, key.body, key.fill) ELSE EmptyDER
+\* declared / actual: the outer SEQUENCE's length field and the number of content octets that follow it
+DER(form, o, l, f) == [k |-> "DER", form |-> form, oid |-> o, body |-> l, fill |-> f, declared |-> 0, actual |-> 0]
+Marshal(key) == IF Encodable(OIDs[key.oid])
+                THEN [DER("canonical", key.oid, key.body, key.fill) EXCEPT !.declared = DeclaredOuter(OIDs[key.oid], key.body),
+                                                                            !.actual = OuterContent(OIDs[key.oid], key.body)]
+                ELSE EmptyDER
 \* forms a remote party can put on the wire for the same (oid, body)
 AcceptedForms == {"canonical", "params-null", "params-oid"}
 \* (a BIT STRING with unused bits is accepted too, but RightAlign() makes it a DIFFERENT key: form "unused-bits")
@@ -94,6 +125,7 @@ Forms == AcceptedForms \cup RejectedForms \cup {"unused-bits"}
 Parse(d) ==
     IF d.k = "EMPTY" THEN Err
     ELSE IF d.form \in RejectedForms \/ ~FitsParser(OIDs[d.oid]) \/ ~Encodable(OIDs[d.oid]) THEN Err
+    ELSE IF d.declared # d.actual THEN Err                          \* sequence truncated / data after the key
     ELSE IF d.form = "unused-bits" THEN (IF d.body = 0 THEN Err ELSE [k |-> "KEY", oid |-> d.oid, body |-> d.body, fill |-> "shifted"])
     ELSE [k |-> "KEY", oid |-> d.oid, body |-> d.body, fill |-> d.fill]
 AsParsed(key) == [k |-> "KEY", oid |-> key.oid, body |-> key.body, fill |-> key.fill]
@@ -106,7 +138,7 @@ KeyRoundTrips(key) == Parse(Marshal(key)) = AsParsed(key)
 \* recorded finding: valid OIDs whose arcs exceed int32 marshal but do not parse back
 KF_BigArc(key) == ValidOID(OIDs[key.oid]) /\ ~FitsParser(OIDs[key.oid])
 Neighbours(key) == {key} \cup {Key(o, key.body, key.fill) : o \in {"ed25519", "ed448", "first0", "arc2p31"}}
-                     \cup {Key(key.oid, l, key.fill) : l \in {0, 32, 33}}
+                     \cup {Key(key.oid, l, key.fill) : l \in {0, 32, 33, 127, 128}}
                      \cup {Key(key.oid, key.body, f) : f \in Fills}
 
 \* =================================================================== Part B
@@ -200,10 +232,12 @@ TextOf(id, tc) ==
 
 \* ==================================================================== cases
 KeyCases == {[kind |-> "key", key |-> k] : k \in AllKeys}
-PairFirst == IF Rich THEN AllKeys ELSE {Key(o, 32, "mixed") : o \in QuickOIDs} \cup {Key("ed25519", 0, "zero")}
+PairFirst == IF Rich THEN {Key(o, l, "mixed") : o \in OIDNames, l \in {0, 32, 127, 256, 1312}}
+             ELSE {Key(o, 32, "mixed") : o \in QuickOIDs} \cup {Key("ed25519", 0, "zero"), Key("ed25519", 128, "mixed"), Key("long130", 256, "mixed")}
 PairCases == UNION {{[kind |-> "pair", k1 |-> k, k2 |-> n] : n \in Neighbours(k)} : k \in PairFirst}
 DerCases == {[kind |-> "der", form |-> f, key |-> k] : f \in Forms \ {"canonical"},
-               k \in {Key(o, l, "mixed") : o \in {"ed25519", "first2_999", "arc2p31", "long20"}, l \in (IF Rich THEN BodyLens ELSE {0, 1, 32})}}
+               k \in {Key(o, l, "mixed") : o \in {"ed25519", "first2_999", "arc2p31", "long20", "long130"},
+                                            l \in (IF Rich THEN {0, 1, 31, 32, 33, 64, 126, 127, 128, 255, 256, 1312} ELSE {0, 1, 32, 127, 256})}}
 IdTextCases == {[kind |-> "idtext", id |-> i, tc |-> tc] : i \in (IF Rich THEN IdNames ELSE {"zero", "ones", "mixed", "last15"}), tc \in TextClasses}
 IdPairCases == {[kind |-> "idpair", a |-> x, b |-> y] : x \in IdNames, y \in IdNames}
 Cases == KeyCases \cup PairCases \cup DerCases \cup IdTextCases \cup IdPairCases
@@ -216,6 +250,9 @@ Spec == Init /\ [][Next]_c
 \* ===================================================================== laws
 \* RoundTrip: every key with a (parser-representable) object identifier survives marshal and parse
 RoundTripLaw == c.kind = "key" => (ValidOID(OIDs[c.key.oid]) => (KeyRoundTrips(c.key) \/ KF_BigArc(c.key)))
+\* CanonicalDER: the marshalled encoding is the one encoding/asn1 produces: every length field is the
+\* definite, minimal length of what follows (the model's canonical form has no other freedom)
+CanonicalDERLaw == c.kind = "key" => (Encodable(OIDs[c.key.oid]) => Marshal(c.key).declared = Marshal(c.key).actual)
 \* EqualIffEncodingEqual, for object identifiers
 EqualIffEncodingEqualLaw ==
     c.kind = "pair" => ((ValidOID(OIDs[c.k1.oid]) /\ ValidOID(OIDs[c.k2.oid])) => (EqualKeys(c.k1, c.k2) <=> Marshal(c.k1) = Marshal(c.k2)))
@@ -223,7 +260,7 @@ EqualIffEncodingEqualLaw ==
 \* fingerprint of its canonical re-encoding (the fingerprint is a function of the parsed key)
 NonCanonicalLaw ==
     c.kind = "der" => LET p == Parse(DER(c.form, c.key.oid, c.key.body, c.key.fill))
-                      IN IsErr(p) \/ LET k2 == Key(p.oid, p.body, p.fill)
+                      IN IsErr(p) \/ LET k2 == [oid |-> p.oid, body |-> p.body, fill |-> p.fill]
                                      IN Parse(Marshal(k2)) = p /\ Fingerprint(k2) = Marshal(k2)
 \* PeerID text
 IdRoundTripLaw == c.kind = "idpair" => Unmarshal(Encode(Ids[c.a])) = [k |-> "ID", id |-> Ids[c.a]]
@@ -234,7 +271,8 @@ RejectInvalidLaw == c.kind = "idtext" => LET u == Unmarshal(TextOf(Ids[c.id], c.
 
 \* printed for the replayer: the case, plus what the model says (validity, expected acceptance)
 ModelSays ==
-    CASE c.kind = "key" -> [valid |-> ValidOID(OIDs[c.key.oid]), fits |-> FitsParser(OIDs[c.key.oid]), rt |-> KeyRoundTrips(c.key), arcs |-> OIDs[c.key.oid]]
+    CASE c.kind = "key" -> [valid |-> ValidOID(OIDs[c.key.oid]), fits |-> FitsParser(OIDs[c.key.oid]), rt |-> KeyRoundTrips(c.key), arcs |-> OIDs[c.key.oid],
+                            derlen |-> IF Encodable(OIDs[c.key.oid]) THEN TLVLen(OuterContent(OIDs[c.key.oid], c.key.body)) ELSE 0]
       [] c.kind = "pair" -> [valid |-> ValidOID(OIDs[c.k1.oid]) /\ ValidOID(OIDs[c.k2.oid]), equal |-> EqualKeys(c.k1, c.k2),
                              arcs1 |-> OIDs[c.k1.oid], arcs2 |-> OIDs[c.k2.oid]]
       [] c.kind = "der" -> [accept |-> ~IsErr(Parse(DER(c.form, c.key.oid, c.key.body, c.key.fill))), arcs |-> OIDs[c.key.oid]]
